@@ -233,6 +233,8 @@ def run_history(case, stats: Stats | None):
                     else:
                         x.do(["timer_status", copy.deepcopy(op[1])])
                 n_push += 1
+                for gen in (4, 5):
+                    sides[gen][1].console_reported()
                 compare(f"after {op[0]}")
             else:
                 call = op[1]
